@@ -48,7 +48,8 @@ CLAIMED["C15"] = (
 CLAIMED["C10"] = (
     "for every group-code sequence within the bound (enumerated) and every value/NaN/mask placement, alpha in (0,1] and time origin "
     "(symbolic), _ema_grouped/_ema_grouped_timed satisfy out*sum(w) = sum(w*x) with w = (1-alpha)^elapsed-group-rows or 2^-(dt/halflife), "
-    "invalid rows repeat the previous output; single-group grouped == ungrouped; ema/ema_grouped(halflife=h) use alpha = 1-2^(-1/h) for every "
+    "invalid rows repeat the previous output; single-group grouped == ungrouped; the public entry points ema(values, alpha) and ema_grouped(alpha) "
+    "(argument checks, kernel dispatch) give the same numbers and accept every valid alpha; ema/ema_grouped(halflife=h) use alpha = 1-2^(-1/h) for every "
     "real h>0 (exp as a monotone uninterpreted function); the time unit of datetime64 timestamps is honoured; N<=4,G<=2 (quick), N<=5 / G=3 (thorough)",
     "exact arithmetic; exp/log and pd.Timedelta by contract stubs; timed gaps are integer multiples (0..2) of the halflife; pandas wrapping outside",
     "DESIGN.md 4 C10")
@@ -115,7 +116,7 @@ CLAIMED["C20"] = (
 CLAIMED["C16"] = (
     "(i) the real GroupBy.var/std bodies (one-pass formula over the real sum / sum-of-squares / count kernels) equal the two-pass sample "
     "variance as a polynomial identity in exact arithmetic for every code sequence and null pattern of the bound and all non-null values (null when "
-    "n <= ddof), ddof in {0,1}, std^2 = var; (ii) the real GroupBy.apply routes, for every code sequence, mask and 1-2 value columns, exactly the "
+    "n <= ddof), ddof in {0,1}, std^2 = var, also with transform=True through the real _apply_gb_reduction; (ii) the real GroupBy.apply routes, for every code sequence, mask and 1-2 value columns, exactly the "
     "selected values of each observed group in row order to an uninterpreted user function and its results to that group's position, also for "
     "vector-valued functions (input-aligned / fixed length, incl. the real non-reduce probe and the kind of index built) and for GroupBy.median/quantile "
     "(np.median/np.quantile as uninterpreted symbols); (iii) agg([f1,f2]) equals the individual calls side by side, ratio = sum/sum, single-key "
